@@ -1168,8 +1168,17 @@ func (f *Frame) selectOp(x *ssa.Select, st *State) Value {
 	if x.Blocking {
 		selExtra["blocking"] = Value{T: tTrue, Ty: types.Typ[types.Bool]}
 	}
-	for i, sst := range x.States {
-		selExtra[fmt.Sprintf("chan%d", i)] = f.val(sst.Chan)
+	vals := []Value{{T: idx, Ty: types.Typ[types.Int]}, {T: u.sc.fresh("selok", SBool), Ty: types.Typ[types.Bool]}}
+	for i, s := range x.States {
+		selExtra[fmt.Sprintf("chan%d", i)] = f.val(s.Chan)
+		if s.Dir == types.RecvOnly {
+			et := s.Chan.Type().Underlying().(*types.Chan).Elem()
+			v := u.sc.fresh("selrecv", u.te.sortOf(et))
+			u.assume(st.reach, u.wf(v, et, st.wm))
+			vals = append(vals, Value{T: v, Ty: et})
+			// the value received if case i is chosen
+			selExtra[fmt.Sprintf("recv%d", i)] = Value{T: v, Ty: et}
+		}
 	}
 	f.siteHook("select", x, st, selExtra)
 	// every send case of the select is a release site of its own
@@ -1178,15 +1187,6 @@ func (f *Frame) selectOp(x *ssa.Select, st *State) Value {
 			f.siteChan = sst.Chan
 			f.siteHook("send", x, st, map[string]Value{"value": f.val(sst.Send)})
 			f.siteChan = nil
-		}
-	}
-	vals := []Value{{T: idx, Ty: types.Typ[types.Int]}, {T: u.sc.fresh("selok", SBool), Ty: types.Typ[types.Bool]}}
-	for _, s := range x.States {
-		if s.Dir == types.RecvOnly {
-			et := s.Chan.Type().Underlying().(*types.Chan).Elem()
-			v := u.sc.fresh("selrecv", u.te.sortOf(et))
-			u.assume(st.reach, u.wf(v, et, st.wm))
-			vals = append(vals, Value{T: v, Ty: et})
 		}
 	}
 	return Value{Tuple: vals, Ty: x.Type()}
@@ -1378,7 +1378,7 @@ func (f *Frame) siteMatches(s *SiteSpec, kind string, ins ssa.Instruction) bool 
 		if target != "" && name != target && !strings.HasSuffix(name, "."+target) {
 			return false
 		}
-	case "send", "recv", "close", "store", "mapupdate", "mapdelete":
+	case "send", "recv", "close", "store", "mapupdate", "mapdelete", "maplookup":
 		if target != "" && !f.siteOperandMatches(ins, target) {
 			return false
 		}
@@ -1421,6 +1421,8 @@ func (f *Frame) siteOperandMatches(ins ssa.Instruction, target string) bool {
 		op = x.Addr
 	case *ssa.MapUpdate:
 		op = x.Map
+	case *ssa.Lookup:
+		op = x.X
 	case *ssa.UnOp:
 		op = x.X
 	case *ssa.Call:
